@@ -336,6 +336,7 @@ func (d *sliceDecoder) DecodePath(ctx *RuntimeContext, cursor, depth int64) ([][
 					if child != nil {
 						oldPath := ctx.Option.Path.node
 						ctx.Option.Path.node = child
+						verifYield("dec-path:node-advanced")
 						paths, c, err := d.valueDecoder.DecodePath(ctx, cursor, depth)
 						if err != nil {
 							return nil, 0, err
